@@ -247,6 +247,25 @@ fn recover_and_compare(w: &mut World, sc_op: &Op, twin: &Value, pre: &Value, pre
         }
     }
     let _ = pre;
+    // on a copy: once background work (including the retries an hour later)
+    // has run, without any new request, the served files agree with each
+    // other and with the repository content
+    let r = crate::checks::c04::what_if(w, move |w2| {
+        let mut out: Vec<(String, String)> = Vec::new();
+        match catch_up(w2) {
+            Err(e) => out.push(("fatal".into(), format!("background tasks after the cut: {e}"))),
+            Ok(()) => out.extend(
+                crate::checks::pubd::files_consistent(w2, true)
+                    .into_iter()
+                    .map(|(k, d)| (format!("repository-{k}"), format!("after background work and retries, before any new request: {d}"))),
+            ),
+        }
+        out
+    });
+    match r {
+        Ok(x) => v.extend(x),
+        Err(e) => v.push(("machinery".into(), e)),
+    }
     // background work, then the interrupted request again
     if let Err(e) = w.pump() {
         v.push(("fatal".into(), format!("background tasks after the cut: {e}")));
